@@ -1013,4 +1013,454 @@ theorem cloneSel_outsideFrame (s : G) (w : Uid) (roots : List Uid) (hi : Inv s) 
   · have := hl.outside u hu' hw
     simp [hh.parent u hu', hh.children u hu', hh.owner u hu', this.1, this.2]
 
+/-! ### exact effect of accepted hierarchy setters -/
+
+theorem setParentSome_cases' (g : G) (c q : Uid) :
+    (∃ e, setParentSome g c q = (g, some e)) ∨
+    ∃ sub, subtreeF g.children g.fuel c = some sub ∧
+      setParentSome g c q = (appStep (ownStep (parStep (detachOld g c) c q) sub q) c q, none) := by
+  unfold setParentSome
+  split
+  · rename_i e _
+    exact Or.inl ⟨e, rfl⟩
+  · rw [mutParentSome_eq]
+    split
+    · exact Or.inl ⟨_, rfl⟩
+    · rename_i sub hsub
+      exact Or.inr ⟨sub, hsub, rfl⟩
+
+theorem detachOld_children_erase (g : G) (hw : WF g) (c u : Uid) :
+    (detachOld g c).children u = (g.children u).erase c := by
+  have hnm : ∀ u, g.parent c ≠ some u → c ∉ g.children u := fun u hp hm => hp ((hw.listed c u).mpr hm)
+  unfold detachOld
+  split
+  · rename_i p hp
+    split
+    · by_cases e : u = p
+      · subst e; simp
+      · rw [List.erase_of_not_mem (hnm u (fun h => e (by rw [hp] at h; exact (Option.some.inj h).symm)))]
+        simp [e]
+    · rename_i hc
+      by_cases e : u = p
+      · subst e
+        rw [List.erase_of_not_mem (by simpa using hc)]
+      · rw [List.erase_of_not_mem (hnm u (fun h => e (by rw [hp] at h; exact (Option.some.inj h).symm)))]
+  · rename_i hp
+    rw [List.erase_of_not_mem (hnm u (by rw [hp]; simp))]
+
+/-- effect of an accepted `c.parent = q` -/
+theorem setParentSome_effect (g g' : G) (c q : Uid) (hw : WF g) (h : setParentSome g c q = (g', none)) :
+    g'.parent = upd g.parent c (some q) ∧
+    (∀ u, g'.children u = if u = q then (g.children q).erase c ++ [c] else (g.children u).erase c) ∧
+    g'.preds = g.preds ∧ g'.succs = g.succs ∧ (g.owner q = none → g'.owner = g.owner) := by
+  rcases setParentSome_cases' g c q with ⟨e, he⟩ | ⟨sub, _, he⟩
+  · rw [he] at h; cases h
+  · rw [he] at h
+    have hg : g' = appStep (ownStep (parStep (detachOld g c) c q) sub q) c q := (Prod.mk.inj h).1.symm
+    subst hg
+    have hch0 : (ownStep (parStep (detachOld g c) c q) sub q).children = (detachOld g c).children := by
+      rw [(ownStep_fields _ _ _).2.1, (parStep_fields _ _ _).2.1]
+    refine ⟨?_, ?_, ?_, ?_, ?_⟩
+    · rw [(appStep_fields _ _ _).1, (ownStep_fields _ _ _).1, (parStep_fields _ _ _).1, (detachOld_fields g c).1]
+    · intro u
+      have hnc : c ∉ (g.children q).erase c := fun hm => ((hw.once q).mem_erase_iff.mp hm).1 rfl
+      unfold appStep
+      rw [hch0, detachOld_children_erase g hw c q]
+      have : ((g.children q).erase c).contains c = false := by simpa using hnc
+      rw [this]
+      simp only [Bool.false_eq_true, if_false]
+      by_cases e : u = q
+      · subst e; simp
+      · simp only [upd_other _ _ _ _ e, if_neg e]
+        rw [detachOld_children_erase g hw c u]
+    · rw [(appStep_fields _ _ _).2.1, (ownStep_fields _ _ _).2.2.1, (parStep_fields _ _ _).2.2.1,
+        (detachOld_fields g c).2.1]
+    · rw [(appStep_fields _ _ _).2.2.1, (ownStep_fields _ _ _).2.2.2.1, (parStep_fields _ _ _).2.2.2.1,
+        (detachOld_fields g c).2.2.1]
+    · intro ho
+      rw [appStep_owner]
+      have hbase : (parStep (detachOld g c) c q).owner = g.owner := (detachOld_fields g c).2.2.2.2
+      unfold ownStep
+      rw [hbase, ho]
+      exact hbase
+
+/-- effect of `c.parent = None` on a task without owner -/
+theorem setParentNone_effect (g : G) (c : Uid) (hw : WF g) (ho : g.owner c = none) :
+    (setParentNone g c).2 = none ∧
+    (setParentNone g c).1.parent = upd g.parent c none ∧
+    (∀ u, (setParentNone g c).1.children u = (g.children u).erase c) ∧
+    (setParentNone g c).1.preds = g.preds ∧ (setParentNone g c).1.succs = g.succs ∧
+    (setParentNone g c).1.owner = g.owner := by
+  unfold setParentNone
+  rw [ho]
+  refine ⟨rfl, ?_, ?_, ?_, ?_, ?_⟩
+  · show upd (detachOld g c).parent c none = _
+    rw [(detachOld_fields g c).1]
+  · intro u
+    exact detachOld_children_erase g hw c u
+  · exact (detachOld_fields g c).2.1
+  · exact (detachOld_fields g c).2.2.1
+  · exact (detachOld_fields g c).2.2.2.2
+
+theorem erase_filter_notin (L vs : List Uid) (v : Uid) (hL : L.Nodup) :
+    (L.erase v).filter (fun x => !vs.contains x) = L.filter (fun x => !(v :: vs).contains x) := by
+  rw [hL.erase_eq_filter, List.filter_filter]
+  apply List.filter_congr
+  intro x _
+  by_cases e : x = v
+  · subst e; simp
+  · simp [e]
+
+/-- effect of an accepted re-parenting loop -/
+theorem foldSetParent_effect (h : Uid) : ∀ (vs : List Uid) (g g' : G), WF g → (∀ v ∈ vs, g.hidden v = false) →
+    vs.Nodup → foldSetParent g vs h = (g', none) →
+    (∀ x, g'.parent x = if x ∈ vs then some h else g.parent x) ∧
+    (∀ u, g'.children u = if u = h then (g.children h).filter (fun x => !vs.contains x) ++ vs
+                          else (g.children u).filter (fun x => !vs.contains x)) ∧
+    g'.preds = g.preds ∧ g'.succs = g.succs := by
+  intro vs
+  induction vs with
+  | nil =>
+    intro g g' _ _ _ hf
+    have : g' = g := by
+      have := (Prod.mk.inj hf).1; exact this.symm
+    subst this
+    refine ⟨fun x => by simp, fun u => ?_, rfl, rfl⟩
+    have hft : ∀ L : List Uid, L.filter (fun _ => true) = L := fun L => List.filter_eq_self.mpr (fun _ _ => rfl)
+    split
+    · rename_i e; subst e; simp [hft]
+    · simp [hft]
+  | cons v vs ih =>
+    intro g g' hw hv hnd hf
+    unfold foldSetParent at hf
+    rcases hsp : setParent g v (some h) with ⟨g1, e⟩
+    rw [hsp] at hf
+    cases e with
+    | some e => cases hf
+    | none =>
+      have hsp' : setParentSome g v h = (g1, none) := hsp
+      obtain ⟨e1, e2, e3, e4, _⟩ := setParentSome_effect g g1 v h hw hsp'
+      have hw1 : WF g1 := by
+        have := setParentSome_WF g v h hw (hv v List.mem_cons_self)
+        rw [hsp'] at this; exact this
+      have htid : g1.tid = g.tid := by
+        have := setParentSome_tid g v h
+        rw [hsp'] at this; exact this
+      have hv1 : ∀ x ∈ vs, g1.hidden x = false := by
+        intro x hx
+        rw [hidden_of_tid g g1 htid x]
+        exact hv x (List.mem_cons_of_mem _ hx)
+      have hnd' := List.nodup_cons.mp hnd
+      obtain ⟨i1, i2, i3, i4⟩ := ih g1 g' hw1 hv1 hnd'.2 hf
+      refine ⟨?_, ?_, i3.trans e3, i4.trans e4⟩
+      · intro x
+        rw [i1 x, e1]
+        by_cases hx : x ∈ vs
+        · simp [hx]
+        · by_cases hxv : x = v
+          · subst hxv; simp
+          · simp [hx, hxv]
+      · intro u
+        rw [i2 u]
+        by_cases hu : u = h
+        · subst hu
+          simp only [if_true]
+          rw [e2 u, if_pos rfl, List.filter_append, erase_filter_notin _ vs v (hw.once u)]
+          have : ([v] : List Uid).filter (fun x => !vs.contains x) = [v] := by
+            simp [hnd'.1]
+          rw [this]
+          simp
+        · simp only [if_neg hu]
+          rw [e2 u, if_neg hu, erase_filter_notin _ vs v (hw.once u)]
+
+theorem filter_notin_nil (L : List Uid) : L.filter (fun x => !([] : List Uid).contains x) = L := by
+  simp
+
+/-- effect of an accepted `h.children = l` -/
+theorem setChildren_effect (g g' : G) (h : Uid) (l : List Uid) (hw : WF g) (hv : ∀ v ∈ l, g.hidden v = false)
+    (hnd : l.Nodup) (hs : setChildren g h l = (g', none)) :
+    (∀ x, g'.parent x = if x ∈ l then some h else if x ∈ g.children h then none else g.parent x) ∧
+    (∀ u, g'.children u = if u = h then l else (g.children u).filter (fun x => !l.contains x)) ∧
+    g'.preds = g.preds ∧ g'.succs = g.succs := by
+  unfold setChildren at hs
+  split at hs
+  · cases hs
+  · rcases releaseChildren_cases g h l with he | ⟨subs, _, he⟩
+    · rw [he] at hs; cases hs
+    · have hw1 := releaseChildren_WF g h l hw
+      rw [he] at hs hw1
+      simp only at hs hw1
+      obtain ⟨i1, i2, i3, i4⟩ := foldSetParent_effect h l _ g' hw1 hv hnd hs
+      refine ⟨?_, ?_, i3, i4⟩
+      · intro x
+        rw [i1 x]
+        by_cases hx : x ∈ l
+        · simp [hx]
+        · simp [hx]
+      · intro u
+        rw [i2 u]
+        by_cases hu : u = h
+        · subst hu; simp
+        · simp [hu]
+
+theorem setPreds_cases (g : G) (c : Uid) (l : List Uid) :
+    (∃ e, setPreds g c l = (g, some e)) ∨ setPreds g c l = (mutPreds g c l, none) := by
+  unfold setPreds
+  split
+  · exact Or.inl ⟨_, rfl⟩
+  · exact Or.inr rfl
+
+theorem setSuccs_cases (g : G) (c : Uid) (l : List Uid) :
+    (∃ e, setSuccs g c l = (g, some e)) ∨ setSuccs g c l = (mutSuccs g c l, none) := by
+  unfold setSuccs
+  split
+  · exact Or.inl ⟨_, rfl⟩
+  · exact Or.inr rfl
+
+/-- membership in the mirror lists after a link setter -/
+theorem mem_mirror (L : List Uid) (c v x : Uid) (lc old : List Uid) :
+    x ∈ (if lc.contains v ∧ !(if old.contains v then L.filter (fun y => y != c) else L).contains c
+      then (if old.contains v then L.filter (fun y => y != c) else L) ++ [c]
+      else (if old.contains v then L.filter (fun y => y != c) else L)) ↔
+    (x ≠ c ∧ x ∈ L) ∨ (x = c ∧ (v ∈ lc ∨ (v ∉ old ∧ c ∈ L))) := by
+  by_cases hx : x = c
+  · subst hx
+    by_cases h1 : v ∈ lc <;> by_cases h2 : v ∈ old <;> by_cases h3 : x ∈ L <;> simp [h1, h2, h3]
+  · by_cases h1 : v ∈ lc <;> by_cases h2 : v ∈ old <;> by_cases h3 : c ∈ L <;> simp [h1, h2, h3, hx]
+
+/-! ### the source of a uid, static facts about the selection -/
+
+/-- the task a uid stands for: a clone stands for the task it copies, an old uid for itself -/
+def src (s : G) (sel : List Uid) (u : Uid) : Uid := if u < s.n then u else sel.getD (u - s.n) 0
+
+theorem src_lt (s : G) (sel : List Uid) (u : Uid) (h : u < s.n) : src s sel u = u := by
+  unfold src; rw [if_pos h]
+
+theorem src_clone (s : G) (sel : List Uid) (i : Nat) : src s sel (s.n + i) = sel.getD i 0 := by
+  unfold src
+  have h1 : ¬ s.n + i < s.n := by omega
+  have h2 : s.n + i - s.n = i := by omega
+  rw [if_neg h1, h2]
+
+structure SelOK (s : G) (w : Uid) (sel : List Uid) : Prop where
+  inv : Inv s
+  wbs : s.hidden w = true
+  nodup : sel.Nodup
+  mem : ∀ t ∈ sel, s.owner t = some w ∧ s.hidden t = false ∧ t < s.n
+
+theorem getD_mem (sel : List Uid) (i : Nat) (hi : i < sel.length) : sel.getD i 0 ∈ sel := by
+  rw [getD_eq_getElem' sel i hi]; exact List.getElem_mem hi
+
+theorem SelOK.cloneOf_getD {s : G} {w : Uid} {sel : List Uid} (h : SelOK s w sel) (i : Nat) (hi : i < sel.length) :
+    cloneOf s.n sel (sel.getD i 0) = some (s.n + i) := by
+  obtain ⟨c, hc⟩ := cloneOf_mem s.n sel _ (getD_mem sel i hi)
+  obtain ⟨j, hj, rfl, hjx, _⟩ := cloneOf_some s.n sel _ c hc
+  rw [hc]
+  rw [getD_eq_getElem' sel i hi] at hjx
+  have : j = i := by
+    have h1 := h.nodup.idxOf_getElem j hj
+    have h2 := h.nodup.idxOf_getElem i hi
+    rw [hjx] at h1
+    omega
+  rw [this]
+
+theorem cloneOf_src (s : G) (sel : List Uid) (x c : Uid) (h : cloneOf s.n sel x = some c) :
+    IsClone s sel c ∧ src s sel c = x := by
+  obtain ⟨i, hi, rfl, hx, _⟩ := cloneOf_some s.n sel x c h
+  refine ⟨⟨i, hi, rfl⟩, ?_⟩
+  rw [src_clone, getD_eq_getElem' sel i hi, hx]
+
+theorem IsClone.src_mem {s : G} {sel : List Uid} {c : Uid} (h : IsClone s sel c) : src s sel c ∈ sel := by
+  obtain ⟨i, hi, rfl⟩ := h
+  rw [src_clone]; exact getD_mem sel i hi
+
+theorem IsClone.cloneOf_src {s : G} {w : Uid} {sel : List Uid} (ok : SelOK s w sel) {c : Uid} (h : IsClone s sel c) :
+    cloneOf s.n sel (src s sel c) = some c := by
+  obtain ⟨i, hi, rfl⟩ := h
+  rw [src_clone]; exact ok.cloneOf_getD i hi
+
+theorem IsClone.src_inj {s : G} {w : Uid} {sel : List Uid} (ok : SelOK s w sel) {a b : Uid} (ha : IsClone s sel a)
+    (hb : IsClone s sel b) (h : src s sel a = src s sel b) : a = b := by
+  have h1 := ha.cloneOf_src ok
+  have h2 := hb.cloneOf_src ok
+  rw [h] at h1
+  rw [h1] at h2
+  exact Option.some.inj h2
+
+/-- members of one WBS have pairwise different ids -/
+theorem SelOK.tid_inj {s : G} {w : Uid} {sel : List Uid} (ok : SelOK s w sel) (a b : Uid) (ha : a ∈ sel)
+    (hb : b ∈ sel) (hab : a ≠ b) : s.tid a ≠ s.tid b := by
+  obtain ⟨oa, ha', _⟩ := ok.mem a ha
+  obtain ⟨ob, hb', _⟩ := ok.mem b hb
+  refine ok.inv.ids a b hab ha' hb' ⟨w, ?_, ?_⟩
+  · exact ((owner_iff_root s ok.inv a w).mp oa).1
+  · exact ((owner_iff_root s ok.inv b w).mp ob).1
+
+/-! ### soundness: the fresh part of the state only contains mirrored edges -/
+
+/-- a uid created by the call: a clone or the new WBS root -/
+def Fresh (s : G) (sel : List Uid) (u : Uid) : Prop := s.n ≤ u ∧ u ≤ s.n + sel.length
+
+theorem IsClone.fresh {s : G} {sel : List Uid} {c : Uid} (h : IsClone s sel c) : Fresh s sel c := by
+  obtain ⟨i, hi, rfl⟩ := h
+  exact ⟨Nat.le_add_right _ _, by uomega⟩
+
+theorem Fresh.cases {s : G} {sel : List Uid} {c : Uid} (h : Fresh s sel c) : IsClone s sel c ∨ c = s.n + sel.length := by
+  by_cases e : c = s.n + sel.length
+  · exact Or.inr e
+  · refine Or.inl ⟨c - s.n, ?_, ?_⟩
+    · have := h.1; have := h.2; uomega
+    · have := h.1; uomega
+
+structure Sound (s : G) (w : Uid) (sel : List Uid) (g : G) : Prop where
+  ci : CInv s sel g
+  fr : CFrame s w g
+  par : ∀ x y, IsClone s sel x → g.parent x = some y →
+    IsClone s sel y ∧ s.parent (src s sel x) = some (src s sel y)
+  lnk : ∀ a b, a ∈ g.preds b → s.n ≤ a ∨ s.n ≤ b → src s sel a ∈ s.preds (src s sel b)
+
+namespace Sound
+variable {s : G} {w : Uid} {sel : List Uid} {g : G}
+
+theorem hidden_clone (h : Sound s w sel g) (ok : SelOK s w sel) {c : Uid} (hc : IsClone s sel c) :
+    g.hidden c = false :=
+  (h.ci.clone (fun t ht => (ok.mem t ht).2.1) hc).1
+
+theorem hidden_root (h : Sound s w sel g) : g.hidden (s.n + sel.length) = true := by
+  rw [h.ci.hidden]; exact extend_hidden_root s sel
+
+/-- every edge of the dependency graph is the image of an edge of the source -/
+theorem dep (h : Sound s w sel g) (a b : Uid) (hab : a ∈ g.preds b) :
+    src s sel a ∈ s.preds (src s sel b) := by
+  by_cases h1 : s.n ≤ a ∨ s.n ≤ b
+  · exact h.lnk a b hab h1
+  · have ha : a < s.n := by uomega
+    have hb : b < s.n := by uomega
+    rw [src_lt s sel a ha, src_lt s sel b hb]
+    by_cases hw : s.owner b = some w
+    · rw [← (h.fr.2.member b hb hw).1]; exact hab
+    · rw [← (h.fr.2.outside b hb hw).1]
+      exact List.mem_filter.mpr ⟨hab, by simpa using ha⟩
+
+theorem link_fresh (h : Sound s w sel g) (a b : Uid) (hab : a ∈ g.preds b) :
+    (s.n ≤ a → IsClone s sel a) ∧ (s.n ≤ b → IsClone s sel b) := by
+  have hbd := h.ci.1.bnd.preds b a hab
+  rw [h.ci.2.1] at hbd
+  have hr := h.ci.1.wf.rootsTop _ h.hidden_root
+  constructor
+  · intro ha
+    rcases (Fresh.cases (s := s) (sel := sel) (c := a) ⟨ha, by uomega⟩) with h1 | h1
+    · exact h1
+    · have : b ∈ g.succs a := (h.ci.1.wf.sym a b).mp hab
+      rw [h1, hr.2.2] at this
+      cases this
+  · intro hb
+    rcases (Fresh.cases (s := s) (sel := sel) (c := b) ⟨hb, by uomega⟩) with h1 | h1
+    · exact h1
+    · rw [h1, hr.2.1] at hab
+      cases hab
+
+/-- whatever sits below a fresh uid is fresh -/
+theorem fresh_below (h : Sound s w sel g) (ok : SelOK s w sel) {x c : Uid} (hx : RTC (Pj.par g) x c)
+    (hc : Fresh s sel c) : Fresh s sel x := by
+  induction hx with
+  | refl => exact hc
+  | tail hxb hstep ih =>
+    rename_i b c'
+    apply ih
+    have hbd := h.ci.1.bnd.parent b c' hstep
+    rw [h.ci.2.1] at hbd
+    refine ⟨?_, by uomega⟩
+    apply Nat.le_of_not_lt
+    intro hb
+    have hp : s.parent b = some c' := by rw [← h.fr.1.parent b hb]; exact hstep
+    have := (ok.inv.bnd.parent b c' hp).2
+    have := hc.1
+    uomega
+
+theorem fresh_above (h : Sound s w sel g) {c y : Uid} (hy : RTC (Pj.par g) c y) (hc : Fresh s sel c) :
+    Fresh s sel y := by
+  induction hy with
+  | refl => exact hc
+  | tail hxb hstep ih =>
+    rename_i b c'
+    have hbd := h.ci.1.bnd.parent b c' hstep
+    rw [h.ci.2.1] at hbd
+    exact ⟨h.fr.1.parentUp b c' ih.1 hstep, by uomega⟩
+
+theorem above (h : Sound s w sel g) {c y : Uid} (hy : RTC (Pj.par g) c y) (hc : IsClone s sel c) :
+    IsClone s sel y ∧ RTC (Pj.par s) (src s sel c) (src s sel y) := by
+  induction hy with
+  | refl => exact ⟨hc, RTC.refl⟩
+  | tail _ hstep ih =>
+    obtain ⟨h1, h2⟩ := h.par _ _ ih.1 hstep
+    exact ⟨h1, RTC.tail ih.2 h2⟩
+
+theorem clone_of_parent (h : Sound s w sel g) {b c : Uid} (hstep : g.parent b = some c) (hb : Fresh s sel b) :
+    IsClone s sel b := by
+  rcases hb.cases with h1 | h1
+  · exact h1
+  · have := (h.ci.1.wf.rootsTop _ h.hidden_root).1
+    rw [← h1, hstep] at this
+    cases this
+
+theorem below (h : Sound s w sel g) (ok : SelOK s w sel) {x c : Uid} (hx : RTC (Pj.par g) x c)
+    (hc : IsClone s sel c) : IsClone s sel x ∧ RTC (Pj.par s) (src s sel x) (src s sel c) := by
+  induction hx with
+  | refl => exact ⟨hc, RTC.refl⟩
+  | tail hxb hstep ih =>
+    rename_i b c'
+    have hb : IsClone s sel b :=
+      h.clone_of_parent hstep (h.fresh_below ok (RTC.tail RTC.refl hstep) hc.fresh)
+    obtain ⟨_, h2⟩ := h.par _ _ hb hstep
+    obtain ⟨i1, i2⟩ := ih hb
+    exact ⟨i1, RTC.tail i2 h2⟩
+
+theorem tc_map (h : Sound s w sel g) (ok : SelOK s w sel) {x c : Uid} (hx : TC (Pj.par g) x c)
+    (hc : IsClone s sel c) : IsClone s sel x ∧ TC (Pj.par s) (src s sel x) (src s sel c) := by
+  rcases hx.head_cases with h1 | ⟨b, h1, h2⟩
+  · have hxc := h.clone_of_parent h1 (h.fresh_below ok (RTC.tail RTC.refl h1) hc.fresh)
+    exact ⟨hxc, TC.single (h.par _ _ hxc h1).2⟩
+  · obtain ⟨hb, hbc⟩ := h.below ok h2.toRTC hc
+    have hxc := h.clone_of_parent h1 (h.fresh_below ok (RTC.tail RTC.refl h1) hb.fresh)
+    exact ⟨hxc, TC.of_step_RTC (h.par _ _ hxc h1).2 hbc⟩
+
+theorem owner_none (h : Sound s w sel g) (ok : SelOK s w sel) {c : Uid} (hc : IsClone s sel c) : g.owner c = none := by
+  cases ho : g.owner c with
+  | none => rfl
+  | some w' =>
+    obtain ⟨h1, h2⟩ := (owner_iff_root g h.ci.1 c w').mp ho
+    have := h.hidden_clone ok (h.above h1 hc).1
+    rw [this] at h2; cases h2
+
+theorem tid_clone (h : Sound s w sel g) {c : Uid} (hc : IsClone s sel c) : g.tid c = s.tid (src s sel c) := by
+  obtain ⟨i, hi, rfl⟩ := hc
+  rw [h.ci.2.2, extend_tid_clone s sel i hi, src_clone]
+
+theorem tid_inj (h : Sound s w sel g) (ok : SelOK s w sel) {a b : Uid} (ha : Fresh s sel a) (hb : Fresh s sel b)
+    (hab : a ≠ b) : g.tid a ≠ g.tid b := by
+  rcases ha.cases with ha | ha <;> rcases hb.cases with hb | hb
+  · rw [h.tid_clone ha, h.tid_clone hb]
+    exact ok.tid_inj _ _ ha.src_mem hb.src_mem (fun e => hab (IsClone.src_inj ok ha hb e))
+  · exact tid_ne_of_hidden g (h.hidden_clone ok ha) (hb ▸ h.hidden_root)
+  · exact (tid_ne_of_hidden g (h.hidden_clone ok hb) (ha ▸ h.hidden_root)).symm
+  · exact absurd (ha.trans hb.symm) hab
+
+theorem fresh_tree (h : Sound s w sel g) (ok : SelOK s w sel) {x p : Uid} (hx : SameTree g x p) (hp : Fresh s sel p) :
+    Fresh s sel x := by
+  obtain ⟨r, h1, h2⟩ := hx
+  exact h.fresh_below ok h1 (h.fresh_above h2 hp)
+
+theorem idsOK (h : Sound s w sel g) (ok : SelOK s w sel) (p : Uid) (chs : List Uid) (hp : Fresh s sel p)
+    (hchs : ∀ c ∈ chs, Fresh s sel c) : IdsOK g p chs := by
+  constructor
+  · intro a ⟨c, hc, hac⟩ hnt b hbt
+    have ha := h.fresh_below ok hac (hchs c hc)
+    have hb := h.fresh_tree ok hbt hp
+    exact h.tid_inj ok ha hb (fun e => hnt (e ▸ hbt))
+  · intro a a' ⟨c, hc, hac⟩ ⟨c', hc', hac'⟩ _ _ hne
+    exact h.tid_inj ok (h.fresh_below ok hac (hchs c hc)) (h.fresh_below ok hac' (hchs c' hc')) hne
+
+end Sound
+
 end Pj
